@@ -253,7 +253,7 @@ func c09ResultKey(dir string, r api.BuildResult) string {
 }
 
 func runC09(c *Check) {
-	c.Rule = "explicit-state search over edit histories of a 16-file project (two entry points, a.js/a.ts shadow pair, JSX, CSS, JSON, const enum, class fields, node_modules package, tsconfig with extends): 34 mostly involutive edits (same-length and different-length content edits, syntax error/repair, create/delete/shadow modules, package.json main/type/sideEffects/exports, nearer node_modules, tsconfig jsx/jsxFactory/jsxImportSource/paths/target/useDefineForClassFields(base)/delete and, as a second search with cjs/iife configurations, alwaysStrict/strict/experimentalDecorators/verbatimModuleSyntax/preserveValueImports/importsNotUsedAsValues/jsxFragmentFactory/alwaysStrict(base), enum/css/json edits, file<->directory, lookups in directories that exist but are empty); every history of length<=3 (thorough 4) with a Rebuild() after every edit x 4 configurations x 2 mtime regimes; oracle: Rebuild() == fresh api.Build of the same tree, and the watch predicates of the previous build report a dirty path whenever the fresh result changed; states = distinct (tree, configuration) pairs reached, transitions = rebuilds"
+	c.Rule = "explicit-state search over edit histories of a 16-file project (two entry points, a.js/a.ts shadow pair, JSX, CSS, JSON, const enum, class fields, node_modules package, tsconfig with extends): 34 mostly involutive edits (same-length and different-length content edits, syntax error/repair, create/delete/shadow modules, package.json main/type/sideEffects/exports, nearer node_modules, tsconfig jsx/jsxFactory/jsxImportSource/paths/target/useDefineForClassFields(base)/delete and, as a second search with cjs/iife configurations, alwaysStrict/strict/experimentalDecorators/verbatimModuleSyntax/preserveValueImports/importsNotUsedAsValues/jsxFragmentFactory/alwaysStrict(base), enum/css/json edits, file<->directory, lookups in directories that exist but are empty); every history of length<=3 (thorough 4) with a Rebuild() after every edit x 4 configurations x 2 mtime regimes; oracle: Rebuild() == fresh api.Build of the same tree, and the watch predicates of the previous build report a dirty path whenever the fresh result changed; states = distinct (tree, configuration) pairs reached, transitions = rebuilds; the JSON file is imported by key and by default from both entry points"
 	c.Assump = []string{"edits are applied while no build is running", "mtime regime 'past' sets strictly increasing mtimes far in the past (usable mod keys), regime 'now' uses the real clock (mod keys inside the safety gap)"}
 	maxLen := 3
 	if c.Tier != "quick" {
